@@ -46,7 +46,7 @@ def run(chk):
     chk.rule("R1", "Summarize: visible columns = grouping columns (minus overwritten) + aggregates, grouping emptied, in all three siblings")
     chk.rule("R2", "filter after summarize -> HAVING, otherwise WHERE; each Query field feeds exactly its own clause")
     chk.rule("R10", "Polars aggregates interpreted over terms: sum / min / any turn a partition without non-null input into null *per partition* (the count() == 0 guard lies inside the expression .over() is applied to); count / count_star carry no such guard")
-    chk.rule("R11", "end-to-end simulation: predicates after summarize land in HAVING, before it in WHERE; GROUP BY holds the non-constant grouping keys, on every verb sequence up to the bound")
+    chk.rule("R11", "end-to-end simulation: predicates after summarize land in HAVING, before it in WHERE; GROUP BY holds the non-constant grouping keys; compiling the same tree twice gives the same statement (the compiler does not consume the grouping state of the tree), on every verb sequence up to the bound")
     chk.rule("R9", "a computed grouping key is typed Const only when it is constant: CaseExpr.dtype / ColFn.dtype interpreted for every combination of child kinds (the SQL back ends leave Const keys out of GROUP BY)")
     chk.rule("R3", "every declared context keyword is consumed: read by both dispatchers or removed by ColFn.__init__ on every path")
     chk.rule("R4", "Polars: null-for-empty wrapper excludes exactly the counting aggregates; grouped agg vs single-row select")
@@ -160,7 +160,7 @@ def run(chk):
 
     from .. import pipesim as _ps
 
-    _ps.report(chk, m, "R11", ['placement'], depth_quick=2, depth_thorough=3, floor=100)
+    _ps.report(chk, m, "R11", ['placement', 'recompile'], depth_quick=2, depth_thorough=3, floor=100)
 
     # ---- R10 Polars aggregates: the null-for-empty guard is evaluated per partition (polsim)
     from .. import polsim
